@@ -67,6 +67,36 @@ def case(task):
     return out
 
 
+def repetitive_case(task):
+    """files with repeated lines (where a hunk's old side occurs several times): the analyses must not change anything"""
+    content, i, ctx, threads = task
+    d = wsweep.wdir()
+    root = os.path.join(d, 'ws')
+    lines = [c.encode() for c in content]
+    s0, e0 = max(0, i - ctx), min(len(lines), i + 1 + ctx)
+    body = b''.join(b' ' + l + b'\n' for l in lines[s0:i]) + b'-' + lines[i] + b'\n+NEW\n' + b''.join(b' ' + l + b'\n' for l in lines[i + 1:e0])
+    text = b'--- a/f\n+++ b/f\n@@ -%d,%d +%d,%d @@\n' % (s0 + 1, e0 - s0, s0 + 1, e0 - s0) + body
+    files = {'f': (b''.join(l + b'\n' for l in lines), 0o644)}
+    out = {'evals': 0, 'violations': [], 'outcomes': {}, 'nontrivial': 0}
+    ref = None
+    for opts in (['-q'], ['-q', '-A', 'multiapply'], ['-A', 'multiapply'], ['-v', '-A', 'multiapply', '--stats']):
+        ws.make_ws(root, files, {'p1.patch': text}, ['p1.patch'])
+        o = ws.run_rq(root, ['-a'] + opts, threads=threads, trace=os.path.join(d, 'trace'))
+        st = state(o, ws.snapshot(root))
+        out['evals'] += 1
+        if ref is None:
+            ref = st
+            continue
+        out['nontrivial'] += 1
+        out['outcomes']['exit-' + o.cls] = out['outcomes'].get('exit-' + o.cls, 0) + 1
+        if st != ref:
+            mode = st[0] if st[0] not in ('0', '1') else 'differs-from-quiet-default-run'
+            out['violations'].append((wsweep.cls({'repetitive-file', 'analysis:multiapply', 'threads>1' if threads > 1 else 'threads=1'}), mode,
+                                      {'kind': 'cli', 'files': {'f': [common.b2s(files['f'][0]), 0o644]}, 'patches': {'p1.patch': common.b2s(text)}, 'series': ['p1.patch'], 'args': ['-a'] + opts, 'threads': threads,
+                                       'expected': 'outcome of `push -a -q` (exit %s)' % ref[0], 'observed': 'exit %s' % st[0], 'stderr': common.b2s(o.err[-300:])}))
+    return out
+
+
 def run(tier, seed):
     res = common.Result('model_checking')
     m0 = tq.initial(with_empty=True)
@@ -97,11 +127,25 @@ def run(tier, seed):
             r['sample'] = {'series': tq.describe_series(tasks[i][1]), 'threads': tasks[i][2], 'option_sets': len(sets), 'outcomes': r['outcomes']}
         acc.add(r)
     acc.finish('sweep')
+    import itertools
+    rep_tasks = []
+    for n in range(3, 7 if tier == 'quick' else 8):
+        for content in itertools.product('ab', repeat=n):
+            for i in range(n):
+                for ctx in (1, 2):
+                    rep_tasks.append((content, i, ctx, 1 + (i + n) % 2))
+    acc2 = wsweep.Acc(res)
+    for i, r in enumerate(wsweep.pmap(repetitive_case, rep_tasks)):
+        if i % 499 == 0:
+            r = dict(r)
+            r['sample'] = {'file_lines': ''.join(rep_tasks[i][0]), 'changed_line': rep_tasks[i][1], 'context': rep_tasks[i][2], 'outcomes': r['outcomes']}
+        acc2.add(r)
+    acc2.finish('repetitive_files_with_analyses')
     cov = res.coverage
     cov['series'] = len(series)
     cov['failing_hunk_shapes'] = len(shapes)
     cov['option_sets'] = len(sets)
     cov['rule'] = ('workspaces of the C05 alphabet extended with a zero-length source file and zero-length patch files x all %d combinations of --mmap, {none,-q,-v,-vv}, '
-                   '--color {unset,always,never}, --stats, -A multiapply x threads {1,2}; plus %d single failing hunks in systematic shapes of mismatch (a wrong / extra / missing line at each position, context past the end or before the start of the file, foreign hunks, far-off line numbers) x verbosity x threads. Oracle (differential): exit class, tree, .pc and reject files equal those of the `-q` '
+                   '--color {unset,always,never}, --stats, -A multiapply x threads {1,2}; plus %d single failing hunks in systematic shapes of mismatch (a wrong / extra / missing line at each position, context past the end or before the start of the file, foreign hunks, far-off line numbers) x verbosity x threads; plus every file over {a,b} with 3..6 lines x every single-line replacement with 1-2 context lines (old side repeated in the file) with and without -A multiapply/--stats. Oracle (differential): exit class, tree, .pc and reject files equal those of the `-q` '
                    'default-loader run of the same workspace. non-trivial = every non-reference run') % (len(sets), len(shapes))
     return res
